@@ -154,13 +154,14 @@ impl<'a> TypeShareVisitor<'a> {
 
         // Lookup a type name against parsed imports.
         let find_type = |name: &str| {
+            // The imports are a hash set: prefer the smallest crate name when a type name is
+            // imported from several crates, so that the result is the same in every process.
             let found = self
                 .parsed_data
                 .import_types
                 .iter()
-                .find(|imp| imp.type_name == name)
-                .into_iter()
-                .next()
+                .filter(|imp| imp.type_name == name)
+                .min_by(|a, b| a.base_crate.cmp(&b.base_crate))
                 .cloned();
 
             // if found.is_none() {
